@@ -240,7 +240,8 @@ class LemmaJob:
         Ls = LSym(case)
         escaped = None
         try:
-            self.func(Ls)
+            with S.time_budget():
+                self.func(Ls)
         except OutOfSubset as e:
             # undecided - unless the numeric refuter below (real functions at seeded points of the precondition built so far) finds a failing input
             escaped = e
